@@ -414,6 +414,7 @@ fn c14_multi_eval(c: &C14Multi, r: &mut Report) {
     let word: Vec<String> = c.ops.iter().map(|o| match o { GOp::Set(cl) => format!("set({})", cl.key()), GOp::Remove(k) => format!("remove({})", k), GOp::Extend(kv) => format!("extend({})", kv.iter().map(|x| x.0.as_str()).collect::<Vec<_>>().join(",")), GOp::Footer(_) => "footer".into(), GOp::Assertion(_) => "assertion".into(), GOp::Build => "BUILD".into(), GOp::UseKey(_) => "use-key".into() }).collect();
     for op in &c.ops {
         match op {
+            GOp::Set(Claim::Native(_, Native::Unserialisable)) => {}
             GOp::Set(cl) => model.push(ClaimOp::Set(cl.clone())),
             GOp::Remove(k) => model.push(ClaimOp::Remove(k.clone())),
             GOp::Extend(kv) => model.push(ClaimOp::Extend(kv.clone())),
@@ -474,6 +475,11 @@ fn random_multi(rng: &mut Rng) -> Vec<GOp> {
                 ops.push(GOp::Extend(vec![(k.clone(), gens::json_tree(rng, d))]));
                 keys.push(k);
             }
+            6 if rng.chance(1, 4) => {
+                // a value that fails in Serialize after producing some output: the call cannot succeed and gets no verdict, but
+                // whatever it leaves behind must not affect the claims set afterwards (a fresh key: it never enters the model)
+                ops.push(GOp::Set(Claim::Native(format!("unserialisable-{}", ops.len()), Native::Unserialisable)));
+            }
             6 => ops.push(GOp::Footer(rng.utf8_upto(12))),
             7 => ops.push(GOp::Assertion(rng.utf8_upto(12))),
             _ => ops.push(GOp::Build),
@@ -501,7 +507,7 @@ pub fn replay_c14(case: &Value) -> Report {
     r
 }
 
-pub const RULE_C14: &str = "seeded random histories of 0..12 (every 16th: 0..60) set_claim/remove_claim/extend_claims operations on GenericBuilder (20000 on v4.local, 250-1500 on each other protocol; thorough 2e6 / 1e4-1.5e5) plus a fixed corner catalogue: keys = non-empty Unicode (escapes, NUL, non-BMP, 200-byte keys, near-reserved names, keys equal to a member name inside their own value, 255/256/257/1000 (thorough 70000) claims on one builder, and ~45 pairs of different keys that collide under FNV-1/1a, the 31-multiplier hash, djb2, CRC-32, byte sums, truncation to 8..256 bytes or to u8/u16 characters, NFC/NFD, embedded NUL); values = JSON trees of depth <= 5 (i64/u64 extremes, exact short decimals, empty containers, null), native Rust values through Serialize (structs, tuples, Option, Vec, BTreeMap, enums, char, bytes) and registered claims through their typed constructors; the token is parsed back with a validator-free GenericParser and the whole object compared (serde_json equality) with a model map (last write wins, remove deletes) built by the harness. Plus multi-build histories (1500 on v4.local, 30-150 elsewhere; thorough 4e4): ONE GenericBuilder is driven through 3-17 set/remove/footer/assertion/build steps and EVERY token it emits must equal the model at that point. distinct_nontrivial = distinct (protocol, #ops, #sets, #members, value-shape signature) that built, parsed and compared equal; every fourth token is also parsed through parsers carrying accepting validators (for absent claims and for claims the token carries, registered one at a time and in bulk), a matching expectation, and PasetoParser::default(): a successful parse must return exactly the claims set";
+pub const RULE_C14: &str = "seeded random histories of 0..12 (every 16th: 0..60) set_claim/remove_claim/extend_claims operations on GenericBuilder (20000 on v4.local, 250-1500 on each other protocol; thorough 2e6 / 1e4-1.5e5) plus a fixed corner catalogue: keys = non-empty Unicode (escapes, NUL, non-BMP, 200-byte keys, near-reserved names, keys equal to a member name inside their own value, 255/256/257/1000 (thorough 70000) claims on one builder, and ~45 pairs of different keys that collide under FNV-1/1a, the 31-multiplier hash, djb2, CRC-32, byte sums, truncation to 8..256 bytes or to u8/u16 characters, NFC/NFD, embedded NUL); values = JSON trees of depth <= 5 (i64/u64 extremes, exact short decimals, empty containers, null), native Rust values through Serialize (structs, tuples, Option, Vec, BTreeMap, enums, char, bytes) and registered claims through their typed constructors; the token is parsed back with a validator-free GenericParser and the whole object compared (serde_json equality) with a model map (last write wins, remove deletes) built by the harness. Plus multi-build histories (1500 on v4.local, 30-150 elsewhere; thorough 4e4): ONE GenericBuilder is driven through 3-17 set/remove/footer/assertion/build steps (now and then a set_claim with a value whose Serialize impl fails part-way: no verdict on that call, which the unchanged library answers with a panic, but nothing it leaves behind may affect later claims) and EVERY token it emits must equal the model at that point. distinct_nontrivial = distinct (protocol, #ops, #sets, #members, value-shape signature) that built, parsed and compared equal; every fourth token is also parsed through parsers carrying accepting validators (for absent claims and for claims the token carries, registered one at a time and in bulk), a matching expectation, and PasetoParser::default(): a successful parse must return exactly the claims set";
 
 // ==========================================================================================
 // C15
